@@ -8,3 +8,118 @@ Print Assumptions c07_prefix_in_front.
 Theorem c07_marker_padding : forall s w, swidth (pad_width s w) = N.max (swidth s) w.
 Proof. exact pad_width_width. Qed.
 Print Assumptions c07_marker_padding.
+
+(* ---------- tree level (Proofs/Compose.v): a prefixed block = its content rendered in a fresh narrower sub-renderer, prefixed ---------- *)
+From H2T Require Import Sub Css Dom Render Api Proofs.WrapInv Proofs.RenderWidth Proofs.Compose.
+Theorem c07_blockquote :
+  forall (d : deco) (mw : N) (cs : list rnode) (sty : cstyle) (st0 st' : rstate),
+       render_node d mw (RN (IBlockQuote cs) sty) st0 = Ok st' ->
+       let q := d_quote_prefix d in
+       exists
+         (st : rstate) (ps : pushed) (tp : subr) (rest : list subr) (mn : N) (sub : subr) 
+       (lk' : list text) (ols : list rline) (s4 s5 : subr),
+         apply_style d st0 sty = Ok (st, ps) /\
+         stack st = tp :: rest /\
+         nested (rkids d mw cs) tp (links st) (swidth q) mn sub lk' ols /\
+         block_eq tp sub q s4 s5 /\
+         unwind d ps {| stack := end_block s5 :: rest; links := lk' |} = Ok st' /\
+         (clean_top st0 -> out_lines (end_block s5) = Ok (strs (slines s4) ++ map (app q) (strs ols))).
+Proof. exact Compose.c07_blockquote. Qed.
+Print Assumptions c07_blockquote.
+
+Theorem c07_header :
+  forall (d : deco) (mw level : N) (cs : list rnode) (sty : cstyle) (st0 st' : rstate),
+       render_node d mw (RN (IHeader level cs) sty) st0 = Ok st' ->
+       let h := d_header_prefix d level in
+       exists
+         (st : rstate) (ps : pushed) (tp : subr) (rest : list subr) (mn : N) (sub : subr) 
+       (lk' : list text) (ols : list rline) (s4 s5 : subr),
+         apply_style d st0 sty = Ok (st, ps) /\
+         stack st = tp :: rest /\
+         nested (rkids d mw cs) tp (links st) (swidth h) mn sub lk' ols /\
+         block_eq tp sub h s4 s5 /\
+         unwind d ps {| stack := end_block s5 :: rest; links := lk' |} = Ok st' /\
+         (clean_top st0 -> out_lines (end_block s5) = Ok (strs (slines s4) ++ map (app h) (strs ols))).
+Proof. exact Compose.c07_header. Qed.
+Print Assumptions c07_header.
+
+Theorem c07_dd :
+  forall (d : deco) (mw : N) (cs : list rnode) (sty : cstyle) (st0 st' : rstate),
+       render_node d mw (RN (IDd cs) sty) st0 = Ok st' ->
+       let p2 := ptext [32; 32] in
+       exists
+         (st : rstate) (ps : pushed) (tp : subr) (rest : list subr) (mn : N) (sub : subr) 
+       (lk' : list text) (ols : list rline) (s5 : subr),
+         apply_style d st0 sty = Ok (st, ps) /\
+         stack st = tp :: rest /\
+         nested (rkids d mw cs) tp (links st) 2 mn sub lk' ols /\
+         append_subrender tp sub p2 p2 = Ok s5 /\
+         unwind d ps {| stack := s5 :: rest; links := lk' |} = Ok st' /\
+         (clean_top st0 -> out_lines s5 = (do l <- out_lines tp; Ok (l ++ map (app p2) (strs ols)))).
+Proof. exact Compose.c07_dd. Qed.
+Print Assumptions c07_dd.
+
+Theorem c07_ul :
+  forall (d : deco) (mw : N) (items : list rnode) (sty : cstyle) (st0 st' : rstate),
+       render_node d mw (RN (IUl items) sty) st0 = Ok st' ->
+       clean_top st0 ->
+       let bullet := d_ul_prefix d in
+       let indent := repeat_chr (spacel L_prefix) (N.to_nat (swidth bullet)) in
+       exists
+         (st : rstate) (ps : pushed) (tp : subr) (rest : list subr) (s' : subr) (lk' : list text) 
+       (Ls : list (list rline)),
+         apply_style d st0 sty = Ok (st, ps) /\
+         stack st = tp :: rest /\
+         items_rendered d mw items tp (swidth bullet) (links st) lk' Ls /\
+         out_lines s' =
+         (do l <- out_lines tp;
+          Ok (l ++ flat_map (fun ols : list rline => prefixed bullet indent (strs ols)) Ls)) /\
+         unwind d ps {| stack := s' :: rest; links := lk' |} = Ok st' /\ swidth indent = swidth bullet.
+Proof. exact Compose.c07_ul. Qed.
+Print Assumptions c07_ul.
+
+Theorem c07_ol :
+  forall (d : deco) (mw : N) (start : Z) (items : list rnode) (sty : cstyle) (st0 st' : rstate),
+       render_node d mw (RN (IOl start items) sty) st0 = Ok st' ->
+       clean_top st0 ->
+       exists
+         (pw : N) (st : rstate) (ps : pushed) (tp : subr) (rest : list subr) (s' : subr) 
+       (lk' : list text) (Ls : list (list rline)),
+         ol_prefix_size d start (length items) = Ok pw /\
+         apply_style d st0 sty = Ok (st, ps) /\
+         stack st = tp :: rest /\
+         items_rendered d mw items tp pw (links st) lk' Ls /\
+         out_lines s' =
+         (do l <- out_lines tp; Ok (l ++ items_lines (ol_marker d pw) (ol_indent pw) (ol_num start) 0 Ls)) /\
+         unwind d ps {| stack := s' :: rest; links := lk' |} = Ok st'.
+Proof. exact Compose.c07_ol. Qed.
+Print Assumptions c07_ol.
+
+Theorem c07_quote_in_quote :
+  forall (d : deco) (mw : N) (cs : list rnode) (sty2 sty : cstyle) (st0 st' : rstate),
+       render_node d mw (RN (IBlockQuote [RN (IBlockQuote cs) sty2]) sty) st0 = Ok st' ->
+       clean_top st0 ->
+       let q := d_quote_prefix d in
+       exists
+         (st : rstate) (ps : pushed) (tp : subr) (rest : list subr) (w mn : N) (sub : subr) 
+       (lk' : list text) (s4 s5 tp2 : subr) (ps2 : pushed) (mn2 : N) (sub2 : subr) 
+       (ols2 : list rline),
+         apply_style d st0 sty = Ok (st, ps) /\
+         stack st = tp :: rest /\
+         width_minus tp (swidth q) mn = Ok w /\
+         apply_style d {| stack := [new_sub_renderer tp w]; links := links st |} sty2 =
+         Ok ({| stack := [tp2]; links := links st |}, ps2) /\
+         nested (rkids d mw cs) tp2 (links st) (swidth q) mn2 sub2 lk' ols2 /\
+         block_eq tp sub q s4 s5 /\
+         unwind d ps {| stack := end_block s5 :: rest; links := lk' |} = Ok st' /\
+         out_lines (end_block s5) =
+         Ok (strs (slines s4) ++ map (fun l : list chr => q ++ q ++ l) (strs ols2)).
+Proof. exact Compose.c07_quote_in_quote. Qed.
+Print Assumptions c07_quote_in_quote.
+
+Theorem clean_top_preserved :
+  forall (d : deco) (mw : N) (n : rnode) (st st' : rstate),
+       render_node d mw n st = Ok st' -> clean_top st -> clean_top st'.
+Proof. exact Compose.clean_top_preserved. Qed.
+Print Assumptions clean_top_preserved.
+
